@@ -2,6 +2,7 @@
 //! Library part: framework and shared engines; `cli_main` is the common
 //! command line of every monitor binary.
 #![allow(dead_code)]
+pub mod chunks;
 pub mod fw;
 pub mod gen;
 pub mod obs;
